@@ -71,7 +71,7 @@ class Check(Prop):
     ID = "C04"
     RULE = ("cases = (source bytes, mode in {--suggest,--hover,--define}, --row=N with N from 0 to lines+2); enumerated: a fixed corpus "
             "subset x all three modes x rows {0,1,middle,last,last+1,last+2}; generated: corpus programs, their line/token prefixes and "
-            "token mutants x mode x row (rows drawn over the whole range, row kinds labelled: row<=0, blank, comment, mid-expression, code, "
+            "token mutants, cyclic class/module hierarchies and value cycles x mode x row (rows drawn over the whole range, row kinds labelled: row<=0, blank, comment, mid-expression, code, "
             "past-eof). Oracle: no panic/fatal error/non-zero exit, no believed watchdog timeout, and every stdout line is a well-formed "
             "%.../@.../$... record or a diagnostic line of the target file. Non-trivial = row inside the file holding >= 1 token; "
             "distinct by (SHA-1(program), mode, row).")
@@ -95,6 +95,17 @@ class Check(Prop):
             for mode in MODES:
                 for row in sorted(set([0, 1, max(1, nl // 2), nl, nl + 1, nl + 2])):
                     yield {"src": p.l1, "mode": mode, "row": row, "origin": "enum:" + p.name}
+        # seed-independent cyclic hierarchies: every row of a few fixed programs in all three modes
+        rings = [
+            "module Ca\n  include Cb\n  def m0\n    0\n  end\nend\nmodule Cb\n  include Ca\n  def m1\n    1\n  end\nend\nclass Host\n  include Ca\nend\nh = Host.new\nh\nHost\nh.m0\n",
+            "module Ca\n  extend Cb\nend\nmodule Cb\n  extend Ca\nend\nclass Host\n  extend Ca\n  include Cb\nend\nHost\nh = Host.new\nh.\nHost.\n",
+            "module Ca\n  include Ca\n  extend Ca\nend\nclass Host\n  include Ca\n  extend Ca\nend\nx = Host.new\nx\nHost\n",
+            "class Ca < Cb\nend\nclass Cb < Cc\n  include Md\nend\nclass Cc < Ca\nend\nmodule Md\n  include Md\nend\ny = Ca.new\ny\nCa\ny.zz\n",
+        ]
+        for s in rings:
+            for mode in MODES:
+                for row in range(1, s.count("\n") + 2):
+                    yield {"src": s, "mode": mode, "row": row, "origin": "enum:ring"}
         for s in ["x.", "x.\n", "[1].", "\"Abc\".", "A.new.", "class A\nend\nA.", "", "\n", "1.\n2.", "def a\nend\na.", "@a.", "$a.", "x = nil\nx."]:
             for mode in MODES:
                 for row in (0, 1, 2, 3):
@@ -105,8 +116,12 @@ class Check(Prop):
 
         @st.composite
         def case(draw):
-            kind = draw(st.integers(0, 9))
-            if kind <= 3:
+            kind = draw(st.integers(0, 12))
+            if kind >= 10:
+                # cyclic hierarchies (superclass / include / extend rings) followed by calls: the ancestor walks of the query modes
+                from .c02 import cyclic, value_cycles
+                src = draw(st.one_of(cyclic(), cyclic(), value_cycles()))
+            elif kind <= 3:
                 src = texts[draw(st.integers(0, len(texts) - 1))]
             elif kind <= 6:
                 src = draw(mutate.prefix_of(texts))
